@@ -129,6 +129,45 @@ def update_weights_flow():
     return obs
 
 
+def training_steps_flow():
+    """`the shrinkage applied after each optimiser step`: the two training loops of a sparse model -- DiscriminativeModel.fit
+    (inherited) and _base_sparse._path -- hand every batch gradient to the model's own _update_weights (optimiser step followed
+    by the proximal step, contract above) in the iteration that computed it, and never step the optimiser themselves."""
+    from gemclus._base_gemini import DiscriminativeModel
+    from gemclus.sparse import _base_sparse as BS
+    obs = []
+    for label, fn, run in (("DiscriminativeModel.fit", "gemclus._base_gemini.DiscriminativeModel.fit",
+                            lambda: fx.Interp(DiscriminativeModel, inline_filter=lambda o, m: False).run_method("fit")),
+                           ("_path", "gemclus.sparse._base_sparse._path", lambda: fx.Interp(None).run_function(BS._path))):
+        try:
+            sts = run()
+        except fx.FxUnsupported as e:
+            obs.append(Ob(f"{label}: training loop analysable", UNDECIDED, "fx", "P", {"why": str(e)}, fn=fn))
+            continue
+        ok, det, trained = True, {}, 0
+        for st in sts:
+            if st.ended == "raise":
+                continue
+            cs = [e for e in st.events if e[0] == "call"]
+            direct = [e[2] for e in cs if e[2].endswith(".update_params") or e[2].endswith("_prox_grad")]
+            cg = [e for e in cs if e[2].endswith("._compute_grads")]
+            uw = [e for e in cs if e[2].endswith("._update_weights")]
+            trained += bool(cg)
+            good = not direct and len(cg) == len(uw)
+            for g_, u_ in zip(cg, uw):
+                res = ("callres", g_[1], g_[2], g_[3], g_[4])
+                am = fx.argmap(("callres", u_[1], u_[2], u_[3], u_[4]), ("weights", "gradients"))
+                good = (good and g_[5] == u_[5] and len(g_[5]) >= 2 and cs.index(g_) < cs.index(u_) and am.get("gradients") == res
+                        and set(am) == {"weights", "gradients"})
+            if not good:
+                ok = False
+                det = {"direct optimiser / prox calls": direct, "gradients computed": len(cg), "handed to _update_weights": len(uw)}
+        obs.append(Ob(f"{label}: every batch gradient is applied by the model's _update_weights in the iteration that computed it; the loop never "
+                      "steps the optimiser or shrinks by itself (shrinkage follows each optimiser step)",
+                      PROVED if ok and trained else REFUTED, "fx-dataflow", "P", det, fn=fn))
+    return obs
+
+
 def fit_groups_flow():
     """fit of every sparse estimator: groups_ = check_groups(self.groups, X.shape[1]) is stored before training starts"""
     from gemclus.sparse import SparseLinearModel, SparseMLPModel, SparseLinearMMD, SparseLinearMI, SparseMLPMMD
